@@ -346,6 +346,13 @@ def sweep_polygon(
 
     # get the spherical coordinates for the normal vectors
     theta, phi = util.vector_to_spherical(normal).T
+    # `theta` means nothing for a vertical normal: take it from the nearest
+    # slice that has one so the section doesn't turn on the spot
+    vertical = np.abs(np.sin(phi)) < tol.zero
+    if vertical.any() and not vertical.all():
+        known = np.nonzero(~vertical)[0]
+        gap = np.abs(known.reshape((-1, 1)) - np.arange(len(theta)))
+        theta = theta[known[gap.argmin(axis=0)]]
 
     # collect the trig values into numpy arrays we can compose into matrices
     cos_theta, sin_theta = np.cos(theta), np.sin(theta)
@@ -387,6 +394,15 @@ def sweep_polygon(
             ones,
         ]
     ).reshape((-1, 4, 4))
+
+    # `theta` jumps by pi when the path tilts through vertical, which turns
+    # the section by 180 degrees between two slices: compare the in-plane axes
+    # of consecutive (roll-free) frames and turn the rest of the sweep back
+    x0 = np.column_stack([sin_theta, -cos_theta, zeros])
+    y0 = np.column_stack([cos_phi * cos_theta, cos_phi * sin_theta, -sin_phi])
+    agree = (x0[1:] * x0[:-1]).sum(axis=1) + (y0[1:] * y0[:-1]).sum(axis=1)
+    sign = np.cumprod(np.append(1.0, np.where(agree < 0.0, -1.0, 1.0)))
+    transforms[:, :3, :2] *= sign.reshape((-1, 1, 1))
 
     if tol.strict:
         # make sure that each transform moves the Z+ vector to the requested normal
